@@ -142,6 +142,7 @@ def check_config(ctx, F, tag):
     ctx.count("bitvector-aggregates" + tag, n)
     ctx.floor("bitvector-aggregates" + tag, 2)
     check_select_layout(ctx, F, tag)
+    check_rank_layout(ctx, F, tag)
     # R5: "for every argument" -- the query arguments of the plain bitvector reach no unguarded arithmetic / unwrap (A3, restricted to
     # the BitVector entry points; the same analysis decides C09 for all types)
     import c09
@@ -201,6 +202,103 @@ def check_config(ctx, F, tag):
     ctx.ob("C01.R3.count-ones-is-cached-field", co.name + tag, loc(co.raw["span"]), self_path(co.term_of_local(0)) == ["ones"], "term-shape", "count_ones() = %s" % tstr(co.term_of_local(0)), nontrivial=False)
     ln = F.body("<bit_vector::BitVector as ops::BitVec<'a>>::len")
     ctx.ob("C01.R3.len-is-data-len", ln.name + tag, loc(ln.raw["span"]), m(Call("raw_vector::RawVector::len", SelfField("data")), ln.term_of_local(0)), "term-shape", "len() = %s" % tstr(ln.term_of_local(0)), nontrivial=False)
+
+
+def check_rank_layout(ctx, F, tag):
+    """The rank query reads what RankSupport::new stores, operand by operand: the sample of block index / BLOCK_SIZE; the relative
+    rank slot of word w of the block, which is slot (w + WORDS_PER_BLOCK - 1) mod WORDS_PER_BLOCK (the builder fills slot k with
+    the ones through word k, i.e. the rank at the start of word k + 1, and clears the last slot), RELATIVE_RANK_BITS wide; and
+    the ones of word index / 64 below bit index % 64.  Three addends, each tied to the query index.  A shape the rule cannot
+    find is undecided; a found shape with another operand is a violation (right for the first block / word only, which is
+    where every test lives)."""
+    from guards import linear
+    from pat import fold_consts
+    RS = "bit_vector::rank_support::RankSupport::"
+    try:
+        BS, WPB, WM, RRB, RRM = (F.const(RS + n) for n in ("BLOCK_SIZE", "WORDS_PER_BLOCK", "WORD_MASK", "RELATIVE_RANK_BITS", "RELATIVE_RANK_MASK"))
+    except Undecided:
+        return
+    # the builder's half: slot k of a block is filled by `block_ones << (k * RELATIVE_RANK_BITS)` after word k has been counted,
+    # the last slot is masked off with low_set((WORDS_PER_BLOCK - 1) * RELATIVE_RANK_BITS), and the sample pushed for the block
+    # carries the ones *before* the block (the push precedes `ones += block_ones`)
+    if F.has_body(RS + "new"):
+        nb = F.body(RS + "new")
+        shl = [fold_consts(nb.term_of_rvalue(st["rv"])) for _, _, st in nb.stmts() if st["s"] == "assign" and st["rv"]["r"] == "bin" and st["rv"]["op"] == "Shl"]
+        s_ok = None
+        if shl:
+            def slot_shift(a):
+                a = core(a)
+                if not (a[0] == "bin" and a[1] == "Mul"):
+                    return False
+                for k_, c_ in ((a[2], a[3]), (a[3], a[2])):
+                    if core(c_)[:2] == ("const", RRB) and core(k_)[0] != "bin":       # k itself, not k + 1 / k - 1
+                        return True
+                return False
+            s_ok = any(slot_shift(x[3]) for x in shl)
+        masks = [fold_consts(nb.term_of_operand(t["args"][0])) for _, t in nb.calls() if callee_name(t) in ("bits::low_set", "bits::low_set_unchecked")]
+        m_ok = None if not masks else any(core(x)[:2] == ("const", (WPB - 1) * RRB) for x in masks)
+        pushes_ = [(bi, t) for bi, t in nb.calls() if callee_name(t).startswith("std::vec::Vec::<") and callee_name(t).endswith("::push") and bi in nb.loop_blocks()]
+        adds = [(bi, st) for bi, _, st in nb.stmts() if st["s"] == "assign" and st["rv"]["r"] == "bin" and st["rv"]["op"].startswith("Add") and
+                {core(nb.term_of_operand(st["rv"]["a"]))[0], core(nb.term_of_operand(st["rv"]["b"]))[0]} == {"var"} and
+                any(nb.local_name(core(nb.term_of_operand(st["rv"][k_]))[1]) == "ones" for k_ in ("a", "b") if core(nb.term_of_operand(st["rv"][k_]))[0] == "var")]
+        p_ok = None
+        if len(pushes_) == 1 and adds:
+            p_ok = all(nb.dominates(pushes_[0][0], abi) and abi != pushes_[0][0] for abi, _ in adds)
+        parts = {"slot k filled by << (k * %d)" % RRB: s_ok, "last slot masked with low_set(%d)" % ((WPB - 1) * RRB): m_ok, "sample pushed before ones += block_ones": p_ok}
+        verdict = False if any(v is False for v in parts.values()) else (None if any(v is None for v in parts.values()) else True)
+        ctx.ob("C01.R4.rank-store-read-agreement", RS + "new" + tag, loc(nb.raw["span"]), verdict, "sibling-agreement", "; ".join("%s: %s" % kv for kv in parts.items()))
+    for qn in ("rank", "rank_unchecked"):
+        if not F.has_body(RS + qn):
+            continue
+        qb = F.body(RS + qn)
+        ip = [i for i in range(qb.nargs) if qb.local_name(i + 1) == "index"]
+        if not ip:
+            continue
+        idx = ("param", ip[0])
+        t = fold_consts(qb.term_of_local(0))
+        subs = list(subterms(t))
+        so = lambda k: lambda x: x[0] == "field" and x[2] == k and core(x[1])[0] == "call" and core(x[1])[1] == "bits::split_offset" and core(core(x[1])[2][0])[:2] == idx
+        is_word, is_off = so("0"), so("1")
+        # (a) sample index
+        samp = [x for x in subs if x[0] == "call" and x[1].split("::")[-1].split("<")[0] in ("index", "get_unchecked", "get") and any(self_path(y) == ["samples"] for y in subterms(x[2][0]))]
+        a_ok = None
+        if samp:
+            a_ok = all(core(x[2][1])[0] == "bin" and core(x[2][1])[1] in ("Div", "Shr") and core(core(x[2][1])[2])[:2] == idx and
+                       core(core(x[2][1])[3])[:2] == ("const", BS if core(x[2][1])[1] == "Div" else BS.bit_length() - 1) for x in samp)
+        # (b) slot
+        shr = [x for x in subs if x[0] == "bin" and x[1] == "Shr" and core(x[3])[0] == "bin" and core(x[3])[1] == "Mul"]
+        b_ok = None
+        if shr:
+            b_ok = False
+            for x in shr:
+                mul = core(x[3])
+                for r_, c_ in ((mul[2], mul[3]), (mul[3], mul[2])):
+                    r0 = core(r_)
+                    if core(c_)[:2] == ("const", RRB) and r0[0] == "bin" and r0[1] == "BitAnd" and core(r0[3])[:2] == ("const", WM):
+                        lin = linear(r0[2])
+                        leaves = [k_ for k_ in lin if k_ != ()]
+                        wordish = len(leaves) == 1 and lin[leaves[0]] == 1 and (is_word(leaves[0]) or (leaves[0][0] == "bin" and leaves[0][1] == "BitAnd" and is_word(core(leaves[0][2])) and core(leaves[0][3])[:2] == ("const", WM)))
+                        if wordish and lin.get((), 0) % WPB == WPB - 1:
+                            b_ok = True
+        # (c) within the word
+        cnt = [x for x in subs if x[0] == "call" and x[1].split("::")[-1] == "count_ones" and x[1].startswith("core::num")]
+        c_ok = None
+        if cnt:
+            c_ok = False
+            for x in cnt:
+                a0 = core(x[2][0])
+                if a0[0] == "bin" and a0[1] == "BitAnd":
+                    for w_, m_ in ((a0[2], a0[3]), (a0[3], a0[2])):
+                        w0, m0 = core(w_), core(m_)
+                        if w0[0] == "call" and w0[1].split("::")[-1] in ("word", "word_unchecked") and is_word(core(w0[2][-1])) and \
+                                m0[0] == "call" and m0[1] in ("bits::low_set", "bits::low_set_unchecked") and is_off(core(m0[2][0])):
+                            c_ok = True
+        parts = {"sample of block index / BLOCK_SIZE": a_ok, "slot (word + %d) & %d, %d bits wide" % (WPB - 1, WM, RRB): b_ok, "ones of word index / 64 below bit index %% 64": c_ok}
+        verdict = None if any(v is None for v in parts.values()) else all(parts.values())
+        if any(v is False for v in parts.values()):
+            verdict = False
+        ctx.ob("C01.R4.rank-store-read-agreement", RS + qn + tag, loc(qb.raw["span"]), verdict, "sibling-agreement",
+               "; ".join("%s: %s" % kv for kv in parts.items()))
 
 
 def ref_field(b, o):
@@ -316,6 +414,14 @@ def check_select_layout(ctx, F, tag):
                 bare = any(isinstance(kk, tuple) and kk[:2] == rank_p for kk in lin)
                 within = any(isinstance(kk, tuple) and kk and kk[0] == "bin" and kk[1] in ("BitAnd", "Rem") and any(x[:2] == rank_p for x in subterms(kk)) for kk in lin)
                 idx_ok[qn] = (not bare) and within and lin.get((), 0) == 0
+            if callee_name(t).endswith("Access<'a>>::get") and (self_path(qq.term_of_operand(t["args"][0])) or [None])[-1] == "short":
+                # short entries: one per block of the superblock -> pointer + (rank within the superblock) / BLOCK_SIZE
+                lin = linear(qq.term_of_operand(t["args"][1]))
+                bare = any(isinstance(kk, tuple) and kk[:2] == rank_p for kk in lin)
+                blk_ = F.const(SS.replace("::<T>::", "::<T>::") + "BLOCK_SIZE") if F.consts.get(SS + "BLOCK_SIZE") else 64
+                per_block = any(isinstance(kk, tuple) and kk and kk[0] == "bin" and kk[1] in ("Div", "Shr") and
+                                any(x[0] == "bin" and x[1] in ("BitAnd", "Rem") and any(y[:2] == rank_p for y in subterms(x)) for x in subterms(kk[2])) for kk in lin)
+                idx_ok[qn + ".short"] = (not bare) and per_block and lin.get((), 0) == 0
     ok = ok and all(ptr_ok.get(k) for k in ("long", "short")) and bool(idx_ok) and all(idx_ok.values())
     ctx.ob("C01.R4.select-store-read-agreement", "SelectSupport" + tag, where, ok, "sibling-agreement",
            "builder: sample = %s (position component: %s), offsets %s; tag parity written long=%s short=%s; query: result starts at samples[2*sb]: %s, adds long/short reads: %s/%s under tag parity long=%s short=%s" % (
